@@ -6,11 +6,16 @@
     before any byte moves.  For a freshly parsed packet (C10_failed_insert_keeps_message): when
     insert_rr reports any error the object holds exactly the decompressed form of the packet, which
     the parser accepts and which reads as the same question and records; the cursor is untouched.
+    Stronger (C10_failed_insert_keeps_invariant): that object satisfies the C08 invariant [dinv] (accepted bytes, fixed
+    point of decompression, flag cleared, view = fresh parse).  From any state that satisfies [dinv] a failing
+    insert_rr changes nothing at all (C10_failed_insert_changes_nothing), none of insert_rr / recompute / the header
+    setters reaches a Panic outcome, and histories in which failing steps are tolerated run to the end and keep the
+    invariant (C08_histories_total in props/C08.v).
     PARTIAL: atomicity of the other failing operations (invalid names, deleted
     cursors, malformed text, rename overflow) is decided each run by the correspondence and the
     before/after oracle. *)
 From DV Require Import Model.Base Model.NameCheck Model.Parser Model.Header Model.Readers Model.Uncompress
-  Model.Mutate Spec.PlainSpec Proofs.Hoare Proofs.HeaderBits Proofs.InsertLemmas Proofs.PlainWf Proofs.InsertFail.
+  Model.Mutate Spec.PlainSpec Proofs.Hoare Proofs.HeaderBits Proofs.InsertLemmas Proofs.PlainWf Proofs.InsertFail Proofs.InsertSpec Proofs.HeaderInv.
 
 Theorem C10_insert_bound : forall sec rr s s',
   m_insert_rr sec rr s = (s', Ok tt) -> (N.of_nat (length (pp_packet (fst s'))) <= 8192)%N.
@@ -36,3 +41,13 @@ Theorem C10_failed_insert_keeps_message : forall p v sec rr it s' e, bytes_ok p 
     map plain_record lxr' = map plain_record lxr.
 Proof. exact failed_insert_message. Qed.
 Print Assumptions C10_failed_insert_keeps_message.
+
+Theorem C10_failed_insert_keeps_invariant : forall p v it sec rr s' e, bytes_ok p -> parse p = Ok v ->
+  m_insert_rr sec rr (v, it) = (s', Err e) ->
+  exists dv, s' = (dv, it) /\ dinv dv /\ uncompress p = Ok (pp_packet dv).
+Proof. exact failed_insert_fresh. Qed.
+Print Assumptions C10_failed_insert_keeps_invariant.
+
+Theorem C10_failed_insert_changes_nothing : forall v it sec rr s' e, dinv v -> m_insert_rr sec rr (v, it) = (s', Err e) -> s' = (v, it).
+Proof. exact failed_insert_on_dinv. Qed.
+Print Assumptions C10_failed_insert_changes_nothing.
